@@ -1,5 +1,334 @@
-import StraxModel.Model.Basic
+import StraxModel.Lemmas.SuperrunDeep
+import StraxModel.Generated.RunDoc
+/-
+  Property C14 — a superrun is exactly the ordered concatenation of its subruns.
+  Only property theorems and non-vacuity examples; the work is in Lemmas/Superrun*.lean, the model in
+  Model/Superrun.lean (+ Model/Chunk.lean, Model/Rechunk.lean).
+-/
 namespace Strax.C14
-open Strax
+open Strax Strax.Superrun
+
+/-! ## 1. run spans under `split` / `concatenate`  (`_split_runs_in_chunk`, `_merge_runs_in_chunk`, `_mergable_check`) -/
+
+/-- **split_merge_runs.**  For sorted non-overlapping spans with distinct run ids and ANY `t`: splitting at `t`
+and merging the two halves back (`merge=False`, as `concatenate` does) returns the original spans, in the original
+order, minus the empty ones. -/
+theorem split_merge_runs (rs : Runs) (t : Int) (hs : RunsSorted rs) (hn : (rs.map (·.id)).Nodup) :
+    mergableCheck false (collectRuns [(splitRuns (some rs) t).1, (splitRuns (some rs) t).2])
+      = .ok (nonEmptyRuns rs) :=
+  split_merge_runs_list rs t hs hn
+
+/-- … the spans of the halves tile the halves: if the spans tile `[A, B)` and `A ≤ t ≤ B`, the left half tiles
+`[A, t)` and the right half `[t, B)` (`None` standing for "nothing left", i.e. an empty range) … -/
+theorem split_runs_tile (rs : Runs) (A B t : Int) (h : Tiles A B rs) (h1 : A ≤ t) (h2 : t ≤ B) :
+    TilesOpt A t (splitRuns (some rs) t).1 ∧ TilesOpt t B (splitRuns (some rs) t).2 := by
+  have := split_tiles_list t rs A B h h1 h2
+  exact ⟨tilesOpt_popEmpty this.1, tilesOpt_popEmpty this.2⟩
+
+/-- … and empty spans are dropped from both halves (for every input, sorted or not). -/
+theorem split_runs_drops_empty (rs : Option Runs) (t : Int) :
+    (∀ l, (splitRuns rs t).1 = some l → l ≠ [] ∧ ∀ r ∈ l, r.start ≠ r.stop) ∧
+    (∀ l, (splitRuns rs t).2 = some l → l ≠ [] ∧ ∀ r ∈ l, r.start ≠ r.stop) := by
+  have key : ∀ (X l : Runs), popEmpty X = some l → l ≠ [] ∧ ∀ r ∈ l, r.start ≠ r.stop := by
+    intro X l h
+    unfold popEmpty at h
+    cases hf : List.filter (fun r => r.start != r.stop) X with
+    | nil => rw [hf] at h; cases h
+    | cons a l' =>
+      rw [hf] at h
+      cases h
+      refine ⟨by simp, ?_⟩
+      intro r hr
+      rw [← hf] at hr
+      simpa using (List.mem_filter.mp hr).2
+  cases rs with
+  | none => simp [splitRuns]
+  | some rs => exact ⟨fun l h => key _ l h, fun l h => key _ l h⟩
+
+example : RunsSorted [⟨"a", 0, 5⟩, ⟨"b", 5, 5⟩, ⟨"c", 7, 9⟩] ∧ ([⟨"a", 0, 5⟩, ⟨"b", 5, 5⟩, ⟨"c", 7, 9⟩] : Runs).map (·.id) = ["a", "b", "c"] := by
+  decide
+example : Tiles 0 9 [⟨"a", 0, 5⟩, ⟨"b", 5, 5⟩, ⟨"c", 5, 9⟩] := by simp [Tiles]
+example : splitRuns (some [⟨"a", 0, 5⟩, ⟨"b", 5, 5⟩, ⟨"c", 5, 9⟩]) 3 = (some [⟨"a", 0, 3⟩], some [⟨"a", 3, 5⟩, ⟨"c", 5, 9⟩]) := by
+  decide
+
+/-! ## 2. `define_run` -/
+
+/-- `define_run` hands the frontend the listed runs, each once, in order of run start, ties in the order of
+listing. -/
+theorem defineRun_order (docs : List (String × Int)) (data spec : List String) (h : defineRun docs data = .ok spec) :
+    spec.Perm (dedup data) ∧ spec.Nodup ∧
+    spec.Pairwise (fun a b => ∃ sa sb, docs.lookup a = some sa ∧ docs.lookup b = some sb ∧ sa ≤ sb) ∧
+    (∀ a b sa sb, docs.lookup a = some sa → docs.lookup b = some sb → sa ≤ sb →
+      List.Sublist [a, b] (dedup data) → List.Sublist [a, b] spec) :=
+  ⟨defineRun_perm h, defineRun_nodup h, defineRun_sorted h, fun _ _ _ _ ha hb hle hsub => defineRun_stable h ha hb hle hsub⟩
+
+/-- the run document keeps that order: `DataDirectory.write_run_metadata` no longer passes `sort_keys=True`
+(fix D27; the constant is regenerated from the source on every run, so this breaks if the call changes back) -/
+theorem run_document_keeps_order : Generated.runDocSortKeys = false := rfl
+
+theorem definedSpec_eq_defineRun (docs : List (String × Int)) (data : List String) :
+    definedSpec Generated.runDocSortKeys docs data = defineRun docs data := by
+  unfold definedSpec
+  rw [run_document_keeps_order]
+  cases defineRun docs data <;> rfl
+
+/-- the behaviour BEFORE the fix (`sort_keys=True`), kept as a witness: run `r9` starts before run `r10`, yet the
+spec read back from the run document — what superrun processing iterates over — is `[r10, r9]` -/
+theorem start_order_old_counterexample :
+    defineRun [("r9", 0), ("r10", 100)] ["r9", "r10"] = .ok ["r9", "r10"] ∧
+    definedSpec true [("r9", 0), ("r10", 100)] ["r9", "r10"] = .ok ["r10", "r9"] := by
+  constructor <;>
+    simp [definedSpec, defineRun, dedup, runDocSpec, sortIds, List.lookup, List.mergeSort,
+      List.MergeSort.Internal.splitInTwo, bind, Except.bind, pure, Except.pure] <;> decide
+
+/-! ## 3. data keys -/
+
+/-- **redefine_changes_key.**  Under an injective hash, a superrun defined from another set of subruns (or
+combined instead of processed) has another key — its previously stored data cannot be found under the new
+definition. -/
+theorem redefine_changes_key {κ : Type} (H : List String → Bool → κ) (hH : ∀ a b c d, H a b = H c d → a = c ∧ b = d)
+    (name : String) (s1 s2 : List String) (c1 c2 : Bool) (h : ¬ s1.Perm s2 ∨ c1 ≠ c2) :
+    superrunKey H name s1 c1 ≠ superrunKey H name s2 c2 := by
+  intro he
+  obtain ⟨h1, h2⟩ := superrunKey_inj hH he
+  rcases h with h | h
+  · exact h (perm_of_sortIds_eq h1)
+  · exact h h2
+
+/-- … and the same set of subruns always gives the same key (so restoring a definition finds its data again). -/
+theorem same_subruns_same_key {κ : Type} (H : List String → Bool → κ) (name : String) (s1 s2 : List String) (c : Bool)
+    (h : s1.Perm s2) : superrunKey H name s1 c = superrunKey H name s2 c := by
+  unfold superrunKey; rw [sortIds_eq_of_perm h]
+
+/-- the injectivity hypothesis is satisfiable (non-vacuity): pairing is an injective `H` -/
+example : ∀ (a : List String) (b : Bool) (c : List String) (d : Bool),
+    (fun (l : List String) (x : Bool) => (l, x)) a b = (fun (l : List String) (x : Bool) => (l, x)) c d → a = c ∧ b = d := by
+  intro a b c d h; exact Prod.mk.inj h
+
+/-! ## 4. rows -/
+
+/-- **superrun_rows** (every input, every level, on the fly or stored).  For ANY world (chunk layouts of the
+subruns, plugin chain with arbitrary `allow_superrun` / `rechunk_on_save` / target sizes), any `sub_run_spec`, any
+storage content satisfying the invariant (in particular the empty one), any target level, combining or not,
+`write_superruns` on or off: if `get_iter` does not raise, the rows it yields are `rows r₁ ++ … ++ rows rₙ` in
+`sub_run_spec` order, and the storage invariant still holds.  `Canon` is any class of orderings in which the set of
+subruns determines the order (the data key only knows the set). -/
+theorem superrun_rows {κ : Type} [DecidableEq κ] (Canon : List String → Prop) (H : List String → Bool → κ)
+    (hH : ∀ a b c d, H a b = H c d → a = c ∧ b = d) (hcanon : ∀ a b, Canon a → Canon b → a.Perm b → a = b)
+    (w : World) (spec : List String) (store store' : Store κ) (n : Nat) (combining write : Bool) (y : List Chunk)
+    (hs : Canon spec) (hi : StoreInv Canon H w store)
+    (h : superGet H w spec store n combining write = .ok (y, store')) :
+    rowsOf y = spec.flatMap (srcRows w) ∧ StoreInv Canon H w store' :=
+  superGet_rows hH hcanon hs hi h
+
+/-- **No stale data.**  Over any history of `get_iter` calls on one context — the superrun redefined at will
+between calls, levels / combining / `write_superruns` varying — every call that returns yields exactly the rows of
+the definition in force at that call: stored superrun data of another definition is never served.  Hypothesis: the
+specs of the history come from a class in which the subrun set determines the order … -/
+theorem redefinition_never_serves_stale_data {κ : Type} [DecidableEq κ] (Canon : List String → Prop)
+    (H : List String → Bool → κ) (hH : ∀ a b c d, H a b = H c d → a = c ∧ b = d)
+    (hcanon : ∀ a b, Canon a → Canon b → a.Perm b → a = b) (w : World) (ops : List GetOp)
+    (hs : ∀ op ∈ ops, Canon op.spec) :
+    ∀ p ∈ runOps H w [] ops, rowsOf p.2 = p.1.spec.flatMap (srcRows w) :=
+  runOps_rows hH hcanon w ops [] (storeInv_nil Canon H w) hs
+
+/-- … which holds for everything `define_run` produces from run documents with pairwise distinct starts -/
+theorem redefinition_never_serves_stale_data_start_order {κ : Type} [DecidableEq κ] (H : List String → Bool → κ)
+    (hH : ∀ a b c d, H a b = H c d → a = c ∧ b = d) (w : World) (docs : List (String × Int)) (ops : List GetOp)
+    (hs : ∀ op ∈ ops, StartSorted docs op.spec) :
+    ∀ p ∈ runOps H w [] ops, rowsOf p.2 = p.1.spec.flatMap (srcRows w) :=
+  runOps_rows hH (canon_startSorted docs) w ops [] (storeInv_nil _ H w) hs
+
+theorem defineRun_gives_start_sorted (docs : List (String × Int)) (data spec : List String)
+    (h : defineRun docs data = .ok spec)
+    (hd : ∀ a b sa sb, a ∈ data → b ∈ data → a ≠ b → docs.lookup a = some sa → docs.lookup b = some sb → sa ≠ sb) :
+    StartSorted docs spec :=
+  defineRun_startSorted h hd
+
+/-- without distinct starts the hypothesis is needed: with a tie, listing order decides (`defineRun_order`), two
+definitions of the same set then share the key but not the order — the id-sorted class of the old code is canonical
+too (non-vacuity of `hcanon` for both classes) -/
+example : ∀ a b : List String, sortIds a = a → sortIds b = b → a.Perm b → a = b := canon_sortIds
+
+/-- **superrun_rows in order of run start** (full, for the code after fix D27).  `define_run` followed by
+`get_iter`: the rows are the listed subruns' rows, each subrun once, concatenated in order of run start. -/
+theorem superrun_rows_in_start_order {κ : Type} [DecidableEq κ] (H : List String → Bool → κ)
+    (hH : ∀ a b c d, H a b = H c d → a = c ∧ b = d) (w : World) (docs : List (String × Int)) (data startSpec : List String)
+    (hdef : defineRun docs data = .ok startSpec)
+    (store' : Store κ) (n : Nat) (combining write : Bool) (y : List Chunk)
+    (h : (definedSpec Generated.runDocSortKeys docs data >>= fun spec => superGet H w spec [] n combining write) = .ok (y, store')) :
+    rowsOf y = startSpec.flatMap (srcRows w) ∧ startSpec.Perm (dedup data) ∧
+    startSpec.Pairwise (fun a b => ∃ sa sb, docs.lookup a = some sa ∧ docs.lookup b = some sb ∧ sa ≤ sb) := by
+  rw [definedSpec_eq_defineRun, hdef] at h
+  have h' : superGet H w startSpec [] n combining write = .ok (y, store') := h
+  have := superGet_rows (Canon := fun s => s = startSpec) hH (by intro a b ha hb _; rw [ha, hb]) rfl
+    (storeInv_nil _ H w) h'
+  exact ⟨this.1, defineRun_perm hdef, defineRun_sorted hdef⟩
+
+example : sortIds ["a", "b"] = ["a", "b"] := by
+  simp [sortIds, List.mergeSort, List.MergeSort.Internal.splitInTwo]
+
+/-- a row-wise plugin level with one dependency keeps the rows of ANY input stream (superrun or not, valid or
+not) whenever it does not raise -/
+theorem plugin_level_rows (lv : Level) (runId : String) (cs outs : List Chunk) (h : pluginRun lv runId cs = .ok outs) :
+    rowsOf outs = rowsOf cs :=
+  pluginRun_rows h
+
+/-- saving with rechunking across subrun borders (`Rechunker` with `is_superrun`) and re-reading keeps the rows -/
+theorem stored_and_reread_rows (a : Int) (lv : Level) (runId : String) (cs saved loaded : List Chunk)
+    (h1 : save a lv runId cs = .ok saved) (h2 : saved.mapM reload = .ok loaded) : rowsOf loaded = rowsOf cs := by
+  rw [mapM_reload_rows h2, save_rows h1]
+
+/-! ## 5. the first superrun level, explicitly: subruns recorded, continuity across borders -/
+
+/-- **The first superrun level is total and explicit.**  For every stream as the concat loader yields it
+(`LoaderStream`: loader chunks of positive duration, each run's chunks adjacent, runs on increasing disjoint
+ranges — any gaps between runs), `Plugin.iter` of a superrun-capable plugin does not raise and yields exactly
+`expected`: chunk `c` of subrun `rid` becomes a superrun chunk that starts where the previous output ended, ends
+where `c` ends and holds `c`'s rows. -/
+theorem first_level_explicit (lv : Level) (sup dt : String) (cs : List Chunk) (hallow : lv.allow = true)
+    (hsupid : isSuperId sup = true) (hne : cs ≠ []) (hs : LoaderStream dt sup none cs) :
+    pluginRun lv sup cs = .ok (expected lv sup none cs) :=
+  pluginRun_loader hallow hsupid hne hs
+
+/-- **chunk_records_its_subruns — partial (first superrun level, yielded chunks).**  Every chunk yielded by the
+first superrun level records exactly the subrun, with the time span, of the loader chunk it was built from
+(and holds that chunk's rows; the outputs are contiguous and end where the inputs end).
+
+Full statement: the same for every yielded or stored chunk of every level (`subruns` = the subruns overlapping
+the chunk, clipped to it).  Missing part: chunks above the first superrun level and chunks stored through a
+rechunking saver.  There the full statement is FALSE of the code whenever two consecutive subruns are separated by
+a time gap (`chunk_records_its_subruns_counterexample`, open finding C14a); for adjacent subruns it is validated
+by the correspondence check only. -/
+theorem chunk_records_its_subruns_partial (lv : Level) (sup dt : String) (cs : List Chunk) (hallow : lv.allow = true)
+    (hsupid : isSuperId sup = true) (hne : cs ≠ []) (hs : LoaderStream dt sup none cs) :
+    ∃ outs, pluginRun lv sup cs = .ok outs ∧
+      outs.map (·.subruns) = cs.map (fun c => some [⟨ridOf c, c.start, c.stop⟩]) ∧
+      outs.map (·.rows) = cs.map (·.rows) ∧ outs.map (·.stop) = cs.map (·.stop) ∧ Contig outs :=
+  ⟨_, pluginRun_loader hallow hsupid hne hs, expected_subruns lv sup cs none, expected_rows lv sup cs none,
+    expected_stops lv sup cs none, expected_contig lv sup cs none⟩
+
+/-- the chunk made at a border with a gap does not promise continuity, and `split` (as the input buffer of the
+next plugin level and the rechunker use it) then copies its `subruns` to BOTH halves: the left half `[20, 35)`
+records `b: [30, 40)`, a span reaching beyond the chunk; the right half records it too. -/
+theorem chunk_records_its_subruns_counterexample :
+    gapChunk = outChunk ⟨"d", true, false, 1⟩ "_s" "b" 20 ⟨"s", "k", some "b", 30, 40, [], none, [⟨"b", 30, 40⟩], 1⟩ ∧
+    gapChunk.split 35 true = .ok
+      (⟨"d", "k", some "_s", 20, 35, [], some [⟨"b", 30, 40⟩], [⟨"_s", 20, 35⟩], 1⟩,
+       ⟨"d", "k", some "_s", 35, 40, [], some [⟨"b", 30, 40⟩], [⟨"_s", 35, 40⟩], 1⟩) :=
+  ⟨gapChunk_eq, gapChunk_split⟩
+
+/-- **continuity_across_borders** (first superrun level).  `continuity_check` accepts the combined stream of the
+first superrun level: inside a subrun every chunk starts where the previous one ended, at a border the check is
+reset — whatever the chunk layouts of the subruns and the gaps between them. -/
+theorem continuity_across_borders (lv : Level) (sup dt : String) (cs : List Chunk) (hallow : lv.allow = true)
+    (hsupid : isSuperId sup = true) (hne : cs ≠ []) (hs : LoaderStream dt sup none cs) :
+    ∃ outs, pluginRun lv sup cs = .ok outs ∧ Superrun.continuityCheck outs = .ok () :=
+  ⟨_, pluginRun_loader hallow hsupid hne hs, continuity_expected lv sup hsupid cs⟩
+
+/-- non-vacuity: two subruns `a = [0,10) ++ [10,20)` and `b = [30,40)` (gap of 10) form a `LoaderStream` -/
+example : LoaderStream "s" "_s" none
+    [⟨"s", "k", some "a", 0, 10, [⟨1, 2, 0⟩], none, [⟨"a", 0, 10⟩], 5⟩,
+     ⟨"s", "k", some "a", 10, 20, [], none, [⟨"a", 10, 20⟩], 5⟩,
+     ⟨"s", "k", some "b", 30, 40, [⟨31, 32, 1⟩], none, [⟨"b", 30, 40⟩], 5⟩] := by
+  refine ⟨"a", ⟨rfl, rfl, rfl, rfl, by decide, by decide, ?_⟩, by decide, trivial,
+          "a", ⟨rfl, rfl, rfl, rfl, by decide, by decide, ?_⟩, by decide, ⟨by decide, fun _ => rfl⟩,
+          "b", ⟨rfl, rfl, rfl, rfl, by decide, by decide, ?_⟩, by decide, ⟨by decide, fun h => absurd h (by decide)⟩, trivial⟩
+  all_goals (intro x hx; simp at hx; try (subst hx; decide))
+
+/-- **chunk_records_its_subruns for adjacent subruns, any depth — partial.**  When consecutive subruns are adjacent
+in time (`AdjStream`: every loader chunk starts where the previous one ended, also across borders), ANY number of
+superrun-capable levels stacked on the concat loader do not raise, and every level yields the chunks of the first
+one re-tagged with its own data type: same boundaries, same rows, and `subruns` = exactly the subrun span the chunk
+was built from.  So the depth of the plugin graph at which superrun processing starts does not change what a chunk
+records.  Still missing for the full statement: chunks stored through a rechunking saver (correspondence only), and
+subruns separated by a gap (false: C14a). -/
+theorem chunk_records_its_subruns_adjacent_partial (lv1 : Level) (ls : List Level) (sup dt : String) (cs : List Chunk)
+    (hallow : lv1.allow = true) (hsupid : isSuperId sup = true) (hne : cs ≠ []) (hs : AdjStream dt sup none cs) :
+    runLevels sup (lv1 :: ls) cs = .ok ((lv1 :: ls).map fun lv => (lv, (expected lv1 sup none cs).map (retag lv))) ∧
+    (∀ lv, ((expected lv1 sup none cs).map (retag lv)).map (·.subruns) = cs.map (fun c => some [⟨ridOf c, c.start, c.stop⟩])) ∧
+    (∀ lv, ((expected lv1 sup none cs).map (retag lv)).map (·.rows) = cs.map (·.rows)) ∧
+    (∀ lv, ((expected lv1 sup none cs).map (retag lv)).map (fun c => (c.start, c.stop)) = cs.map (fun c => (c.start, c.stop))) := by
+  refine ⟨runLevels_adjacent ls hallow hsupid hne hs, ?_, ?_, ?_⟩
+  · intro lv
+    rw [List.map_map]
+    have : ((·.subruns) ∘ retag lv) = (·.subruns) := rfl
+    rw [this, expected_subruns]
+  · intro lv
+    rw [List.map_map]
+    have : ((·.rows) ∘ retag lv) = (·.rows) := rfl
+    rw [this, expected_rows]
+  · intro lv
+    rw [List.map_map]
+    have : ((fun c : Chunk => (c.start, c.stop)) ∘ retag lv) = (fun c => (c.start, c.stop)) := rfl
+    rw [this]
+    have key : ∀ (cs : List Chunk) (prev : Option (String × Int)), AdjStream dt sup prev cs →
+        (expected lv1 sup (prev.map (·.2)) cs).map (fun c => (c.start, c.stop)) = cs.map (fun c => (c.start, c.stop)) := by
+      intro cs
+      induction cs with
+      | nil => intro prev _; rfl
+      | cons c cs ih =>
+        intro prev h
+        obtain ⟨rid, hc, _, hp, hrest⟩ := h
+        have hstart : (prev.map (·.2)).getD c.start = c.start := by
+          cases prev with
+          | none => rfl
+          | some rp => obtain ⟨r', p⟩ := rp; exact hp r' p rfl
+        have := ih (some (rid, c.stop)) hrest
+        simp only [Option.map_some] at this
+        simp only [expected, List.map_cons, this, outChunk, hstart]
+    exact key cs none hs
+
+/-- non-vacuity: `a = [0,10) ++ [10,20)` directly followed by `b = [20,30)` -/
+example : AdjStream "s" "_s" none
+    [⟨"s", "k", some "a", 0, 10, [⟨1, 2, 0⟩], none, [⟨"a", 0, 10⟩], 5⟩,
+     ⟨"s", "k", some "a", 10, 20, [], none, [⟨"a", 10, 20⟩], 5⟩,
+     ⟨"s", "k", some "b", 20, 30, [⟨21, 22, 1⟩], none, [⟨"b", 20, 30⟩], 5⟩] := by
+  refine ⟨"a", ⟨rfl, rfl, rfl, rfl, by decide, by decide, ?_⟩, by decide, (fun _ _ h => by cases h),
+          "a", ⟨rfl, rfl, rfl, rfl, by decide, by decide, ?_⟩, by decide, (fun _ _ h => by cases h; rfl),
+          "b", ⟨rfl, rfl, rfl, rfl, by decide, by decide, ?_⟩, by decide, (fun _ _ h => by cases h; rfl), trivial⟩
+  all_goals (intro x hx; simp at hx; try (subst hx; decide))
+
+/-- written and re-read (saver without rechunking): the stored superrun chunks are the yielded ones and the loader
+gives back exactly those chunks, `subruns` included -/
+theorem written_and_reread_identical (a : Int) (lv : Level) (dt sup : String) (cs : List Chunk) (hre : lv.rechunk = false)
+    (hs : SuperStream dt sup none cs) : save a lv sup cs = .ok cs ∧ cs.mapM reload = .ok cs :=
+  save_reload_super hre cs none hs
+
+/-! ## 6. the basic pipeline end to end -/
+
+/-- **The basic superrun pipeline is total and explicit.**  World: source plugin `l0` (saved without rechunking) and
+one superrun-capable plugin `l1` above it; every listed subrun has ≥ 1 accepted source chunk; the concat loader's
+stream is a `LoaderStream` (subruns contiguous inside, on increasing ranges, gaps allowed).  Then `get_iter` of the
+superrun — nothing stored, `write_superruns` off — does not raise, passes `continuity_check`, and yields exactly
+`expected`: rows in `sub_run_spec` order, every chunk recording the subrun span it was built from. -/
+theorem basic_pipeline_total {κ : Type} [DecidableEq κ] (H : List String → Bool → κ) (w : World) (l0 l1 : Level)
+    (spec : List String) (h : WorldOK w l0 l1 spec) :
+    superGet H w spec [] 1 false false = .ok (expected l1 w.superName none (loaderStream w l0 spec), []) :=
+  superGet_basic H h
+
+/-- non-vacuity: subruns `a = [0,10) ++ [10,20)`, `b = [30,40)` (a gap of 10 between them) -/
+example : WorldOK ⟨-1, "_s", [⟨"l0", false, false, 5⟩, ⟨"l1", true, false, 5⟩],
+      [("a", [⟨0, 10, [⟨1, 2, 0⟩]⟩, ⟨10, 20, []⟩]), ("b", [⟨30, 40, [⟨31, 32, 1⟩]⟩])]⟩
+    ⟨"l0", false, false, 5⟩ ⟨"l1", true, false, 5⟩ ["a", "b"] := by
+  refine ⟨rfl, rfl, rfl, rfl, by simp [isSuperId], ?_, by simp, ?_⟩
+  · intro rid hr
+    simp at hr
+    rcases hr with rfl | rfl
+    · refine ⟨_, rfl, by simp, by simp [isSuperId], ?_⟩
+      intro c hc; simp at hc
+      rcases hc with rfl | rfl
+      · exact ⟨by decide, by decide, by intro x hx; simp at hx; subst hx; decide⟩
+      · exact ⟨by decide, by decide, by intro x hx; simp at hx⟩
+    · refine ⟨_, rfl, by simp, by simp [isSuperId], ?_⟩
+      intro c hc; simp at hc; subst hc
+      exact ⟨by decide, by decide, by intro x hx; simp at hx; subst hx; decide⟩
+  · show LoaderStream "l0" "_s" none
+      [loaderOf ⟨"l0", false, false, 5⟩ "a" ⟨0, 10, [⟨1, 2, 0⟩]⟩, loaderOf ⟨"l0", false, false, 5⟩ "a" ⟨10, 20, []⟩,
+       loaderOf ⟨"l0", false, false, 5⟩ "b" ⟨30, 40, [⟨31, 32, 1⟩]⟩]
+    refine ⟨"a", ⟨rfl, rfl, rfl, rfl, by decide, by decide, ?_⟩, by decide, trivial,
+            "a", ⟨rfl, rfl, rfl, rfl, by decide, by decide, ?_⟩, by decide, ⟨by decide, fun _ => rfl⟩,
+            "b", ⟨rfl, rfl, rfl, rfl, by decide, by decide, ?_⟩, by decide, ⟨by decide, fun h => absurd h (by decide)⟩, trivial⟩
+    all_goals (intro x hx; simp [loaderOf] at hx; try (subst hx; decide))
 
 end Strax.C14
